@@ -87,7 +87,7 @@ func c04(w *core.World, r *core.Report) {
 			}
 		}
 		// the table form: Validate ranges over a package-level slice of (switch predicate, validator) rows
-		tableRows := map[string]string{} // switch name -> validator method, as filed in the table
+		tableRows := map[string]string{}                              // switch name -> validator method, as filed in the table
 		validatorPrefix := "tree.sharedEntryAttributes." + "validate" // (not one literal: it would read as a key prefix naming anchors)
 		var tableRun ssa.CallInstruction
 		tableGuarded := false
